@@ -28,8 +28,10 @@ from .c03 import Automaton
 
 
 def _handlers_for(ctx: Ctx, fn: FuncInfo, cls_name: str) -> List[Tuple[ast.Try, ast.ExceptHandler]]:
+    """handlers for `cls_name` in fn - private helpers expanded, local functions included"""
     out = []
-    for tr in [n for n in walk_no_nested(fn.node) if isinstance(n, ast.Try)]:
+    node = ctx.inl(fn)
+    for tr in [n for n in ast.walk(node) if isinstance(n, ast.Try)]:
         for h in tr.handlers:
             ts = h.type.elts if isinstance(h.type, ast.Tuple) else ([h.type] if h.type is not None else [])
             for t in ts:
@@ -39,15 +41,27 @@ def _handlers_for(ctx: Ctx, fn: FuncInfo, cls_name: str) -> List[Tuple[ast.Try, 
     return out
 
 
+def _handler_keywords(h: ast.ExceptHandler) -> List[Dict[str, str]]:
+    """keyword arguments of ex.set_error_location_if_unknown(...) in the handler, handler-local temporaries substituted"""
+    from ..decide import substitute
+
+    env: Dict[str, ast.AST] = {}
+    out = []
+    for st in h.body:
+        if isinstance(st, ast.Assign) and len(st.targets) == 1 and isinstance(st.targets[0], ast.Name):
+            env[st.targets[0].id] = substitute(st.value, env)
+            continue
+        for c in ast.walk(st):
+            if isinstance(c, ast.Call) and isinstance(c.func, ast.Attribute) and c.func.attr == "set_error_location_if_unknown" and norm(c.func.value) == h.name:
+                out.append({k.arg: norm(substitute(k.value, env)) for k in c.keywords if k.arg})
+    return out
+
+
 def rule_r1(ctx: Ctx) -> None:
     repo = ctx.repo
     ctx.rule("C17.R1", "location injection: every Error handler on the propagation path stamps its own context and re-raises the same object; the setter only fills unknown fields", min_instances=4)
-    sites = [
-        ("_parser.parse", {"line": ["pr.current_line_number"]}, ["visit"]),
-        ("_dsdl_definition.DSDLDefinition.read", {"path": ["self.file_path", "self._file_path"]}, ["parse", "finalize"]),
-        ("_namespace_reader._read_definitions", {"path": ["target_definition.file_path"]}, ["read"]),
-    ]
-    for short, want, protects in sites:
+    sites = [("_parser.parse", "line"), ("_dsdl_definition.DSDLDefinition.read", "own path"), ("_namespace_reader._read_definitions", "read path")]
+    for short, kind in sites:
         fn = ctx.func(short)
         hs = _handlers_for(ctx, fn, "Error")
         good = False
@@ -55,17 +69,28 @@ def rule_r1(ctx: Ctx) -> None:
         for tr, h in hs:
             if not h.name:
                 continue
-            calls = [c for c in ast.walk(ast.Module(body=h.body, type_ignores=[])) if isinstance(c, ast.Call) and isinstance(c.func, ast.Attribute) and c.func.attr == "set_error_location_if_unknown" and norm(c.func.value) == h.name]
-            kws = [{k.arg: norm(k.value) for k in c.keywords} for c in calls]
+            kws = _handler_keywords(h)
             rer = [r for r in ast.walk(ast.Module(body=h.body, type_ignores=[])) if isinstance(r, ast.Raise)]
             same = bool(rer) and all(r.exc is None or norm(r.exc) == h.name for r in rer)
-            prot = all(any(isinstance(c, ast.Call) and isinstance(c.func, ast.Attribute) and c.func.attr == p for s in tr.body for c in ast.walk(s)) for p in protects)
+            body_calls = [c for s_ in tr.body for c in ast.walk(s_) if isinstance(c, ast.Call)]
+            if kind == "line":
+                # the parse tree is visited inside the try; the line stamped is the visitor's running counter
+                visitors = [norm(c.func.value) for c in body_calls if isinstance(c.func, ast.Attribute) and c.func.attr == "visit"]
+                prot = len(set(visitors)) == 1
+                want = {"line": ["%s.current_line_number" % visitors[0]]} if prot else {"line": ["?"]}
+            elif kind == "own path":
+                prot = any((isinstance(c.func, ast.Attribute) and c.func.attr in ("parse", "finalize")) or (dotted(c.func) or "").endswith("parse") for c in body_calls)
+                want = {"path": ["self.file_path", "self._file_path"]}
+            else:
+                readers = [norm(c.func.value) for c in body_calls if isinstance(c.func, ast.Attribute) and c.func.attr == "read"]
+                prot = len(set(readers)) == 1
+                want = {"path": ["%s.file_path" % readers[0]]} if prot else {"path": ["?"]}
             # it must be the first handler that matches Error (no broader handler before it)
             first = tr.handlers.index(h) == 0
-            detail.append({"keywords": kws, "reraises_same": same, "protects": prot, "first": first})
+            detail.append({"keywords": kws, "reraises_same": same, "protects": prot, "first": first, "expected": want})
             if len(kws) == 1 and set(kws[0]) == set(want) and all(kws[0][k] in v for k, v in want.items()) and same and prot and first:
                 good = True
-        ctx.check(good, fn.short, "except Error as ex: ex.set_error_location_if_unknown(%s); raise ex" % ", ".join("%s=%s" % (k, v[0]) for k, v in want.items()), "the handler stamps the context of the file/line being processed and re-raises the same exception", fn.where(), detail)
+        ctx.check(good, fn.short, "except Error as ex: ex.set_error_location_if_unknown(<%s of what is being processed>); raise ex" % ("line" if kind == "line" else "path"), "the handler stamps the context of the file/line being processed and re-raises the same exception", fn.where(), detail)
     # the setter
     err = ctx.cls("_error.Error")
     st = err.methods.get("set_error_location_if_unknown")
@@ -182,25 +207,65 @@ def _multiline_terminals(g: Grammar) -> List[Tuple[str, str]]:
 
 
 def _is_statement_line(ctx: Ctx, pt: ClassInfo, fn: FuncInfo, expr_text: str, multiline: bool = True) -> bool:
-    """the expression denotes the line the statement node begins on"""
+    """the expression (private helpers expanded, temporaries substituted) denotes the line the statement node begins on"""
     node_param = fn.params[1] if len(fn.params) > 1 else "node"
-    direct = "self.current_line_number - %s.text.count('\\n')" % node_param
-    if expr_text == direct:
-        return True
-    if expr_text in ("self.current_line_number", "self._current_line_number"):
-        return not multiline
-    # one level of helper inlining: self.<helper>(node)
     try:
         e = ast.parse(expr_text, mode="eval").body
     except SyntaxError:
         return False
+    counter = ("self.current_line_number", "self._current_line_number")
+    breaks = ("%s.text.count('\\n')" % node_param,)
+    if norm(e) in counter:
+        return not multiline
+    if isinstance(e, ast.BinOp) and isinstance(e.op, ast.Sub) and norm(e.left) in counter and norm(e.right) in breaks:
+        return True
+    # still a call of a one-expression helper on the node (not expanded because it is public or overridden): look inside
     if isinstance(e, ast.Call) and isinstance(e.func, ast.Attribute) and norm(e.func.value) == "self" and [norm(x) for x in e.args] == [node_param]:
         h = ctx.repo.lookup_method(pt, e.func.attr)
         if h is not None and len(h.params) == 2:
-            rets = [p for p in paths_of(h.node) if p.kind == "return"]
-            if len(rets) == 1 and norm(rets[0].value) in ("self.current_line_number - %s.text.count('\\n')" % h.params[1], "self._current_line_number - %s.text.count('\\n')" % h.params[1]):
-                return True
+            rets = [p for p in paths_of(ctx.inl(h)) if p.kind == "return"]
+            if len(rets) == 1:
+                return _is_statement_line(ctx, pt, h, norm(rets[0].value), multiline)
     return False
+
+
+def _canonical_calls(ctx: Ctx, fn: FuncInfo, attr: str) -> List[ast.Call]:
+    """calls of `.attr(...)` met on the paths of fn, with helpers expanded and temporaries substituted"""
+    out = []
+    seen = set()
+    for p in paths_of(ctx.inl(fn)):
+        for ev in list(p.events) + ([p.value] if p.value is not None else []):
+            node = ev[2] if isinstance(ev, tuple) and ev[0] == "assign" else ev
+            if not isinstance(node, ast.AST):
+                continue
+            for c in ast.walk(node):
+                if isinstance(c, ast.Call) and isinstance(c.func, ast.Attribute) and c.func.attr == attr and norm(c) not in seen:
+                    seen.add(norm(c))
+                    out.append(c)
+    return out
+
+
+def _counter_advances(ctx: Ctx, fn: FuncInfo, line_attr: str) -> List[str]:
+    """the amounts by which fn (helpers expanded, temporaries substituted) advances the line counter, one per path"""
+    out = []
+    for p in paths_of(ctx.inl(fn)):
+        if p.kind == "raise":
+            continue
+        adv: List[str] = []
+        last = None
+        for ev in p.events:
+            if isinstance(ev, tuple) and ev[0] == "assign" and "self.%s" % line_attr in ev[1]:
+                last = ev[2]
+        if last is not None:
+            # the value finally stored, as a sum over the counter's value on entry (earlier stores are substituted into it)
+            v = last
+            while isinstance(v, ast.BinOp) and isinstance(v.op, ast.Add) and norm(v) != "self.%s" % line_attr:
+                adv.insert(0, norm(v.right))
+                v = v.left
+            if norm(v) != "self.%s" % line_attr:
+                adv = ["=" + norm(last)]
+        out.append(" + ".join(adv) if adv else "0")
+    return sorted(set(out))
 
 
 def rule_r3_r4(ctx: Ctx, a: Automaton) -> None:
@@ -223,10 +288,10 @@ def rule_r3_r4(ctx: Ctx, a: Automaton) -> None:
         good = False
         if vis is not None and len(vis.params) >= 2:
             node_param = vis.params[1]
-            for st in walk_no_nested(vis.node):
-                if isinstance(st, ast.AugAssign) and isinstance(st.op, ast.Add) and norm(st.target) == "self.%s" % a.pl.line_attr and norm(st.value) == "%s.text.count('\\n')" % node_param:
-                    good = True
-                    sanctioned_writers.add(vis.name)
+            adv = _counter_advances(ctx, vis, a.pl.line_attr)
+            if adv == ["%s.text.count('\\n')" % node_param]:
+                good = True
+                sanctioned_writers.add(vis.name)
         ctx.check(good, "grammar." + owner, pat, "a terminal that can match line breaks must advance the line counter by the number of breaks it matched", "%s:%d" % (g.path, g.lines.get(owner, 0)), {"visitor": vis.short if vis else None})
     if not seen_eol:
         raise AnalysisError("end_of_line is not among the terminals containing a line break")
@@ -236,7 +301,7 @@ def rule_r3_r4(ctx: Ctx, a: Automaton) -> None:
         fn = pt.methods.get(m)
         if fn is None:
             raise AnalysisError("anchor %s missing" % m)
-        calls = [c for c in calls_in(fn.node) if isinstance(c.func, ast.Attribute) and c.func.attr == "on_directive"]
+        calls = _canonical_calls(ctx, fn, "on_directive")
         good = len(calls) == 1
         expr = ""
         if good:
@@ -250,17 +315,27 @@ def rule_r3_r4(ctx: Ctx, a: Automaton) -> None:
     inits = [norm(st.value) for st in walk_no_nested(init.node) if isinstance(st, ast.Assign) and norm(st.targets[0]) == "self.%s" % a.pl.line_attr]
     ctx.check(inits == ["1"], pt.short + ".__init__", "line counter starts at %s" % inits, "lines are numbered from one", init.where())
     writers: Dict[str, List[str]] = {}
+    raw_writers: Set[str] = set()
     for name, fn in pt.methods.items():
         if name == "__init__":
             continue
-        for st in walk_no_nested(fn.node):
-            if isinstance(st, (ast.Assign, ast.AugAssign)):
-                tg = st.targets if isinstance(st, ast.Assign) else [st.target]
-                if any(norm(t) == "self.%s" % a.pl.line_attr for t in tg):
-                    writers.setdefault(name, []).append(norm(st))
+        if any(isinstance(st, (ast.Assign, ast.AugAssign)) and any(norm(t) == "self.%s" % a.pl.line_attr for t in (st.targets if isinstance(st, ast.Assign) else [st.target])) for st in ast.walk(fn.node)):
+            raw_writers.add(name)
+        adv = [x for x in _counter_advances(ctx, fn, a.pl.line_attr) if x != "0"]
+        if adv:
+            writers[name] = adv
+    # a private helper that writes the counter is judged through the visitors that call it (their canonical bodies contain it)
+    def callers_of(name: str) -> Set[str]:
+        return {n2 for n2, m2 in pt.methods.items() if any(isinstance(c.func, ast.Attribute) and c.func.attr == name and norm(c.func.value) == "self" for c in calls_in(m2.node, include_nested=True))}
+
+    helpers = {n for n in raw_writers if not n.startswith("visit_") and n.startswith("_")}
+    for hname in sorted(helpers):
+        cs = callers_of(hname)
+        if cs and cs <= (sanctioned_writers | {"visit_end_of_line"} | helpers):
+            writers.pop(hname, None)
     eol = writers.get("visit_end_of_line", [])
     others = {k: v for k, v in writers.items() if k != "visit_end_of_line" and k not in sanctioned_writers}
-    ctx.check(eol == ["self.%s += 1" % a.pl.line_attr] and not others, pt.short, "writers: %s" % {k: v for k, v in writers.items()}, "the counter advances by exactly one per end_of_line and by the matched breaks of multi-line terminals, nowhere else", pt.module.relpath, {"unexpected_writers": others})
+    ctx.check(eol == ["1"] and not others, pt.short, "writers: %s" % {k: v for k, v in writers.items()}, "the counter advances by exactly one per end_of_line and by the matched breaks of multi-line terminals, nowhere else", pt.module.relpath, {"unexpected_writers": others})
     from ..regions import trivial_property_expr
 
     e = trivial_property_expr(repo, pt, "current_line_number")
@@ -291,6 +366,29 @@ def _handler_binding(fn: FuncInfo, h: ast.AST, want_path: str) -> Optional[bool]
     """
     if isinstance(h, ast.Call) and dotted(h.func) == "functools.partial" and len(h.args) == 2 and not h.keywords:
         return norm(h.args[1]) == want_path
+    if isinstance(h, ast.Call) and isinstance(h.func, ast.Name) and len(h.args) >= 1:
+        # a local factory: def make(path): def handler(line, text): user(path, line, text); return handler
+        facs = [n for n in ast.walk(fn.node) if isinstance(n, ast.FunctionDef) and n.name == h.func.id and n is not fn.node]
+        if len(facs) == 1:
+            fac = facs[0]
+            fparams = [x.arg for x in fac.args.posonlyargs + fac.args.args]
+            rets = [r.value for r in ast.walk(fac) if isinstance(r, ast.Return) and r.value is not None]
+            inner: Optional[ast.AST] = None
+            if len(rets) == 1:
+                if isinstance(rets[0], ast.Lambda):
+                    inner = rets[0]
+                elif isinstance(rets[0], ast.Name):
+                    ds = [n for n in ast.walk(fac) if isinstance(n, ast.FunctionDef) and n.name == rets[0].id and n is not fac]
+                    inner = ds[0] if len(ds) == 1 else None
+            if inner is not None and fparams:
+                ia = inner.args  # type: ignore
+                free = [x.arg for x in ia.posonlyargs + ia.args][: len(ia.posonlyargs + ia.args) - len(ia.defaults)]
+                body = inner.body if isinstance(inner.body, list) else [inner.body]  # type: ignore
+                firsts = [norm(c.args[0]) for st in body for c in ast.walk(st) if isinstance(c, ast.Call) and len(c.args) == 3 and [norm(x) for x in c.args[1:]] == free]
+                if len(free) == 2 and firsts:
+                    bound = dict(zip(fparams, [norm(x) for x in h.args]))
+                    return all(bound.get(f0) == want_path for f0 in firsts)
+        return None
     target: Optional[ast.AST] = None
     if isinstance(h, ast.Lambda):
         target = h
@@ -361,9 +459,37 @@ def rule_r5_r6(ctx: Ctx) -> None:
             bad.append({"path": repr(p)[:100], "calls": [norm(c) for c in calls]})
     ctx.check(not bad, pd.short, "one handler call per path, first argument = the directive's line", "each evaluated @print is delivered exactly once", pd.where(), bad)
     nsr = ctx.func("_namespace_reader._read_definitions")
-    ph = nsr.nested.get("print_handler")
-    good = ph is not None and sum(1 for c in calls_in(ph.node) if norm(c.func) == "print_output_handler") == 1 and any([norm(x) for x in c.args] == ph.params for c in calls_in(ph.node) if norm(c.func) == "print_output_handler")
-    ctx.check(good, nsr.short + ".print_handler", "forwards (file, line, message) once", "the wrapper forwards each message once, unchanged", nsr.where(), nontrivial=False)
+    # the wrapper around the user's handler: the one local function (at any nesting) that calls it; it forwards (file, line,
+    # message) once, the line and message being its own last two parameters and the file a parameter of it or of its factory
+    user = next((p_ for p_ in nsr.params if "print" in p_ and "handler" in p_), None)
+    if user is None:
+        raise AnalysisError("_read_definitions: the user's print handler parameter was not found")
+    wrappers = []
+    for n in ast.walk(nsr.node):
+        if isinstance(n, (ast.FunctionDef, ast.Lambda)) and n is not nsr.node:
+            own_calls = [c for c in _calls_not_in_nested(n) if norm(c.func) == user]
+            if own_calls:
+                wrappers.append((n, own_calls))
+    good = len(wrappers) == 1
+    if good:
+        w, cs = wrappers[0]
+        params = [x.arg for x in w.args.posonlyargs + w.args.args]
+        outer_params = {x.arg for f2 in ast.walk(nsr.node) if isinstance(f2, ast.FunctionDef) and f2 is not nsr.node and any(y is w for y in ast.walk(f2)) for x in f2.args.posonlyargs + f2.args.args}
+        good = len(cs) == 1 and len(cs[0].args) == 3 and not cs[0].keywords and len(params) >= 2 and [norm(x) for x in cs[0].args[1:]] == params[-2:] and norm(cs[0].args[0]) in (set(params[:-2]) | outer_params)
+    ctx.check(good, nsr.short + " (print wrapper)", "forwards (file, line, message) once", "the wrapper forwards each message once, unchanged", nsr.where(), nontrivial=False)
+
+
+def _calls_not_in_nested(fn: ast.AST) -> List[ast.Call]:
+    out: List[ast.Call] = []
+    stack = list(ast.iter_child_nodes(fn))
+    while stack:
+        n = stack.pop()
+        if isinstance(n, (ast.FunctionDef, ast.Lambda)):
+            continue
+        if isinstance(n, ast.Call):
+            out.append(n)
+        stack.extend(ast.iter_child_nodes(n))
+    return out
 
 
 def run(ctx: Ctx) -> None:
